@@ -17,49 +17,15 @@ def CK (P : Params) (s : St) : Prop :=
 /-- a clean scope: untainted children, only the bottom block of the stack may be tainted -/
 def CL (P : Params) (s : St) : Prop := CK P s ∧ ∀ b ∈ s.stack.dropLast, ¬ P.T b
 
-theorem mostRecentIn_mem {gs : Array Grp} : ∀ {st : List Nat} {x : Nat}, mostRecentIn gs st = some x →
-    ∃ b ∈ st, ∃ cs, gs[b]? = some (.block cs) ∧ x ∈ cs := by
-  intro st
-  induction st with
-  | nil => intro x h; cases h
-  | cons b bs ih =>
-    intro x h
-    unfold mostRecentIn at h
-    cases hg : gs[b]? with
-    | none =>
-      rw [hg] at h
-      obtain ⟨b', hb', r⟩ := ih h
-      exact ⟨b', by simp [hb'], r⟩
-    | some g =>
-      rw [hg] at h
-      cases g with
-      | block cs =>
-        simp only [] at h
-        cases hl : cs.getLast? with
-        | none =>
-          rw [hl] at h
-          obtain ⟨b', hb', r⟩ := ih h
-          exact ⟨b', by simp [hb'], r⟩
-        | some c =>
-          rw [hl] at h
-          injection h with h; subst h
-          exact ⟨b, by simp, cs, hg, mem_of_getLast? hl⟩
-      | row _ _ =>
-        obtain ⟨b', hb', r⟩ := ih h
-        exact ⟨b', by simp [hb'], r⟩
-      | noop _ _ =>
-        obtain ⟨b', hb', r⟩ := ih h
-        exact ⟨b', by simp [hb'], r⟩
-
 theorem CK.mr {s : St} (h : CK P s) : MR P s := by
   intro x hx
-  obtain ⟨b, hb, cs, hg, hc⟩ := mostRecentIn_mem hx
+  obtain ⟨b, hb, cs, hg, hc⟩ := mostRecentIn_mem' hx
   exact h b hb cs hg x hc
 
 theorem CK.of_blkEq {s s' : St} (hb : BlkEq s s') (h : CK P s) : CK P s' := by
   intro b hbm cs hg
   rw [hb.1] at hbm
-  exact h b hbm cs ((hb.2 b cs).mp hg)
+  exact h b hbm cs ((hb.2.1 b cs).mp hg)
 
 theorem CL.of_blkEq {s s' : St} (hb : BlkEq s s') (h : CL P s) : CL P s' :=
   ⟨h.1.of_blkEq hb, by rw [hb.1]; exact h.2⟩
@@ -73,23 +39,52 @@ theorem SB.of_blkEq {s s' : St} (hb : BlkEq s s') (h : SB s) : SB s' := by
   intro b hbm
   rw [hb.1] at hbm
   obtain ⟨cs, hcs⟩ := h b hbm
-  exact ⟨cs, (hb.2 b cs).mpr hcs⟩
+  exact ⟨cs, (hb.2.1 b cs).mpr hcs⟩
 
 theorem SB.lt {s : St} (h : SB s) {b : Nat} (hb : b ∈ s.stack) : b < s.groups.size := by
   obtain ⟨cs, hcs⟩ := h b hb
   exact (Array.getElem?_eq_some_iff.mp hcs).1
+
+/-- row ids name groups of the arena -/
+def RV (s : St) : Prop := ∀ p ∈ s.rowIds, p.2 < s.groups.size
+
+/-- row groups keep their first node, blocks their first child; the group arena does not shrink -/
+def HeadKeep (s t : St) : Prop :=
+  RowHead s t ∧ (∀ (j c : Nat) (cs : List Nat), s.groups[j]? = some (Grp.block (c :: cs)) →
+    ∃ cs', t.groups[j]? = some (Grp.block (c :: cs'))) ∧ s.groups.size ≤ t.groups.size
+
+theorem HeadKeep.refl (s : St) : HeadKeep s s :=
+  ⟨fun j i l t h => ⟨l, h⟩, fun j c cs h => ⟨cs, h⟩, Nat.le_refl _⟩
+
+theorem HeadKeep.trans {s t u : St} (h : HeadKeep s t) (h' : HeadKeep t u) : HeadKeep s u :=
+  ⟨fun j i l t hg => by
+      obtain ⟨l', hl'⟩ := h.1 j i l t hg
+      exact h'.1 j i l' t hl',
+    fun j c cs hg => by
+      obtain ⟨cs', hc'⟩ := h.2.1 j c cs hg
+      exact h'.2.1 j c cs' hc', Nat.le_trans h.2.2 h'.2.2⟩
+
+theorem HeadKeep.of_blkEq {s t : St} (hb : BlkEq s t) : HeadKeep s t :=
+  ⟨hb.2.2.2.1, fun j c cs hg => ⟨cs, (hb.2.1 j _).mpr hg⟩, hb.2.2.1⟩
 
 /-- what an event-level operation keeps of the unary invariants of the left state -/
 structure Eff (P : Params) (s t : St) : Prop where
   mr : MR P s → MR P t
   cl : CL P s → CL P t
   sb : SB s → SB t
+  rv : RV s → RV t
+  hk : HeadKeep s t
 
-theorem Eff.of_blkEq {s t : St} (hb : BlkEq s t) : Eff P s t :=
-  ⟨fun h => h.of_blkEq hb, fun h => h.of_blkEq hb, fun h => h.of_blkEq hb⟩
+theorem Eff.of_blkEq {s t : St} (hb : BlkEq s t) (hr : t.rowIds = s.rowIds) : Eff P s t :=
+  ⟨fun h => h.of_blkEq hb, fun h => h.of_blkEq hb, fun h => h.of_blkEq hb,
+    fun h p hp => by rw [hr] at hp; exact Nat.lt_of_lt_of_le (h p hp) hb.2.2.1, HeadKeep.of_blkEq hb⟩
+
+theorem Eff.of_blkEq' {s t : St} (hb : BlkEq s t) (hrv : RV s → RV t) : Eff P s t :=
+  ⟨fun h => h.of_blkEq hb, fun h => h.of_blkEq hb, fun h => h.of_blkEq hb, hrv, HeadKeep.of_blkEq hb⟩
 
 theorem Eff.trans {s t u : St} (h : Eff P s t) (h' : Eff P t u) : Eff P s u :=
-  ⟨fun x => h'.mr (h.mr x), fun x => h'.cl (h.cl x), fun x => h'.sb (h.sb x)⟩
+  ⟨fun x => h'.mr (h.mr x), fun x => h'.cl (h.cl x), fun x => h'.sb (h.sb x), fun x => h'.rv (h.rv x),
+    h.hk.trans h'.hk⟩
 
 theorem rwp_get {α β : Type} (f₁ : St → M α) (f₂ : St → M β) (s₁ s₂ : St) (Q : α → St → β → St → Prop) :
     rwp (get >>= f₁) (get >>= f₂) s₁ s₂ Q ↔ rwp (f₁ s₁) (f₂ s₂) s₁ s₂ Q := by
@@ -142,10 +137,12 @@ theorem SSim.consRowId {s₁ s₂ : St} (h : SSim P X s₁ s₂) (id : Str) (hid
 
 /-- `append_node_group` -/
 theorem appendGroup_rel (ok : P.Ok) {s₁ s₂ : St} (h : Sim P X s₁ s₂) {g : Nat} (rowId : Str) (hdg : P.DG g)
+    (hlt : g < s₁.groups.size)
     (hT : P.T g → (∀ b, s₁.stack.head? = some b → P.T b) ∧ (rowId ≠ [] → rowId ∈ X.F)) :
     rwp (appendGroup g rowId) (appendGroup (P.γ g) rowId) s₁ s₂ (fun _ t₁ _ t₂ =>
       Sim P X t₁ t₂ ∧ t₁.stack = s₁.stack ∧ t₁.names = s₁.names ∧ t₂.names = s₂.names ∧
-      (SB s₁ → SB t₁) ∧ (¬ P.T g → MR P t₁ ∧ (CL P s₁ → CL P t₁))) := by
+      (SB s₁ → SB t₁) ∧ (RV s₁ → RV t₁) ∧ HeadKeep s₁ t₁ ∧
+      (¬ P.T g → MR P t₁ ∧ (CL P s₁ → CL P t₁))) := by
   unfold appendGroup
   rw [rwp_get, h.2.stack]
   cases hst : s₁.stack with
@@ -165,18 +162,25 @@ theorem appendGroup_rel (ok : P.Ok) {s₁ s₂ : St} (h : Sim P X s₁ s₂) {g 
         have key : ∀ (g2 : Grp) (cs2 : List Nat), mapGrpAt P b (.block children) = .block cs2 →
             mapGrpAt P b (.block (children ++ [g])) = .block (cs2 ++ [P.γ g]) := by
           intro g2 cs2 e
-          by_cases hbb : b = P.bx
-          · subst hbb
-            rw [mapGrpAt_block_bx] at e ⊢
+          by_cases hbb : b = P.bx ∧ P.sp = true
+          · obtain ⟨hbb, hsp⟩ := hbb
+            subst hbb
+            rw [mapGrpAt_block_bx P hsp] at e ⊢
             injection e with e; subst e
             simp
-          · rw [mapGrpAt_block_ne P hbb] at e ⊢
+          · have hbb' : b ≠ P.bx ∨ P.sp = false := by
+              by_cases h1 : b = P.bx
+              · right; cases hsp : P.sp with
+                | false => rfl
+                | true => exact absurd ⟨h1, hsp⟩ hbb
+              · exact .inl h1
+            rw [mapGrpAt_block_ne P hbb'] at e ⊢
             injection e with e; subst e
             simp
         obtain ⟨cs2, hcs2⟩ : ∃ cs2, mapGrpAt P b (.block children) = .block cs2 := by
-          by_cases hbb : b = P.bx
-          · subst hbb; exact ⟨_, mapGrpAt_block_bx P children⟩
-          · exact ⟨_, mapGrpAt_block_ne P hbb children⟩
+          by_cases hbb : b = P.bx ∧ P.sp = true
+          · exact ⟨_, by simp [mapGrpAt, hbb]; rfl⟩
+          · exact ⟨_, by simp [mapGrpAt, hbb]; rfl⟩
         rw [hcs2]
         simp only []
         have a1 := h.1.setGrp ok hdb hg (g' := .block (children ++ [g]))
@@ -195,6 +199,13 @@ theorem appendGroup_rel (ok : P.Ok) {s₁ s₂ : St} (h : Sim P X s₁ s₂) {g 
             · rw [hx]; intro htg
               exact htb ((hT htg).1 b (by rw [hst]; rfl)))
           (by intro _ _; cases children <;> simp)
+          (by
+            refine ⟨by intro i hi; simp [gnodes] at hi, ?_⟩
+            intro x hx
+            simp only [grefs, List.mem_append, List.mem_singleton] at hx
+            rcases hx with hx | hx
+            · exact (h.1.wf b _ hg).2 x (by simpa [grefs] using hx)
+            · rw [hx]; exact hlt)
         rw [key (.block children) cs2 hcs2] at a1
         have hmr : ∀ t₁ : St, t₁.stack = s₁.stack → t₁.groups = s₁.groups.setIfInBounds b (.block (children ++ [g])) →
             ¬ P.T g → MR P t₁ ∧ (CL P s₁ → CL P t₁) := by
@@ -232,13 +243,45 @@ theorem appendGroup_rel (ok : P.Ok) {s₁ s₂ : St} (h : Sim P X s₁ s₂) {g 
           by_cases hbb' : b = b'
           · subst hbb'; simp [hlt]
           · simp only [hbb', if_false]; exact hs b' hb'
+        have hhk : ∀ t₁ : St, t₁.groups = s₁.groups.setIfInBounds b (.block (children ++ [g])) → HeadKeep s₁ t₁ := by
+          intro t₁ e2
+          have hlt' : b < s₁.groups.size := (Array.getElem?_eq_some_iff.mp hg).1
+          refine ⟨?_, ?_, by rw [e2]; simp⟩
+          · intro j i l t hgj
+            rw [e2, Array.getElem?_setIfInBounds]
+            by_cases hbj : b = j
+            · subst hbj; rw [hg] at hgj; cases hgj
+            · exact ⟨l, by simp [hbj, hgj]⟩
+          · intro j c cs hgj
+            rw [e2, Array.getElem?_setIfInBounds]
+            by_cases hbj : b = j
+            · subst hbj
+              rw [hg] at hgj
+              injection hgj with hgj; injection hgj with hgj
+              subst hgj
+              exact ⟨cs ++ [g], by simp [hlt']⟩
+            · exact ⟨cs, by simp [hbj, hgj]⟩
+        have hrv0 : ∀ t₁ : St, t₁.groups = s₁.groups.setIfInBounds b (.block (children ++ [g])) →
+            t₁.rowIds = s₁.rowIds → RV s₁ → RV t₁ := by
+          intro t₁ e2 e3 hr p hp
+          rw [e3] at hp
+          rw [e2]; simpa using hr p hp
+        have hrv1 : ∀ t₁ : St, t₁.groups = s₁.groups.setIfInBounds b (.block (children ++ [g])) →
+            t₁.rowIds = (rowId, g) :: s₁.rowIds → RV s₁ → RV t₁ := by
+          intro t₁ e2 e3 hr p hp
+          rw [e3] at hp
+          rw [e2]
+          simp only [List.mem_cons] at hp
+          rcases hp with hp | hp
+          · rw [hp]; simpa using hlt
+          · simpa using hr p hp
         unfold addRowId
         cases hid : rowId.isEmpty with
         | true =>
           simp only [if_true]
           rw [rwp_iff_wp]
           wp_simp [wp_setGrp]
-          exact ⟨⟨a1, h.2.of_seq ⟨rfl, rfl, rfl⟩ ⟨rfl, rfl, rfl⟩⟩, hst, trivial, trivial, hsb _ rfl rfl, hmr _ rfl rfl⟩
+          exact ⟨⟨a1, h.2.of_seq ⟨rfl, rfl, rfl⟩ ⟨rfl, rfl, rfl⟩⟩, hst, trivial, trivial, hsb _ rfl rfl, hrv0 _ rfl rfl, hhk _ rfl, hmr _ rfl rfl⟩
         | false =>
           simp only [Bool.false_eq_true, if_false]
           rw [rwp_iff_wp]
@@ -246,6 +289,6 @@ theorem appendGroup_rel (ok : P.Ok) {s₁ s₂ : St} (h : Sim P X s₁ s₂) {g 
           have hne : rowId ≠ [] := by intro e; rw [e] at hid; cases hid
           exact ⟨⟨a1.congr rfl rfl rfl rfl rfl rfl rfl rfl rfl rfl,
             h.2.consRowId rowId hne hdg (fun htg => (hT htg).2 hne) _ _ rfl rfl rfl rfl rfl rfl⟩,
-            hst, trivial, trivial, hsb _ rfl rfl, hmr _ rfl rfl⟩
+            hst, trivial, trivial, hsb _ rfl rfl, hrv1 _ rfl rfl, hhk _ rfl, hmr _ rfl rfl⟩
 
 end Rpft.Compile
